@@ -74,6 +74,7 @@ def make_ns(H5, slabs):
 
 def body(nslab, nh, npart, flags, tracers, chunking):
     c = ctx()
+    c.extra['int_to_float_monitor'] = True      # halo ids are 64-bit integers: they must never travel through a float array
     want_AB, want_shear, want_ranks, want_expvel = flags
     case = dict(slabs=nslab, halos=nh, particles=npart, want_AB=want_AB, want_shear=want_shear, want_ranks=want_ranks, want_expvel=want_expvel,
                 tracers=list(tracers), chunking=list(chunking))
@@ -220,6 +221,8 @@ ns, nh, npt = case['slabs'], case['halos'], case['particles']
 HF = {HF!r}; PF = {PF!r}
 mt = ('ELG' in case['tracers']) or ('QSO' in case['tracers'])
 bad = []
+BIGIDS = {bigids!r}
+nhs_done, allp_ids = [], []
 with tempfile.TemporaryDirectory() as d:
     sub = os.path.join(d, 'sub', 'sim', 'z0.500'); os.makedirs(sub)
     hi = os.path.join(d, 'sim', 'sim', 'halos', 'z0.500', 'halo_info'); os.makedirs(hi)
@@ -239,6 +242,10 @@ with tempfile.TemporaryDirectory() as d:
         dtp = [('halo_id', 'i8')] + [((f.split(':')[0]), 'f8', (3,)) if ':' in f else (f, 'f8') for f in PF]
         p = np.ones(npt, dtype=dtp)
         for k in range(npt): p['halo_id'][k] = int(m.get(f's{{s}}.p.halo_id[{{k}}]', 10 * s))
+        if BIGIDS:      # witness family for the integer-to-float monitor: ids just above 2^53, particles on the odd ones
+            for k in range(len(h)): h['id'][k] = 2 ** 53 + 2 * (len(nhs_done) * 8 + k) + 1
+            for k in range(npt): p['halo_id'][k] = h['id'][min(k, len(h) - 1)] if len(h) else 2 ** 53 + 1
+        nhs_done.append(s); allp_ids.extend(int(x) for x in p['halo_id'])
         tag = '_MT' if mt else ''
         with h5py.File(os.path.join(sub, f'halos_xcom_{{s}}_seed600_abacushod_oldfenv{{tag}}_new.h5'), 'w') as f5: f5.create_dataset('halos', data=h)
         with h5py.File(os.path.join(sub, f'particles_xcom_{{s}}_seed600_abacushod_oldfenv{{tag}}{{"_withranks" if case["want_ranks"] else ""}}_new.h5'), 'w') as f5: f5.create_dataset('particles', data=p)
@@ -263,7 +270,10 @@ with tempfile.TemporaryDirectory() as d:
             if not np.allclose(hd[k][r], srow[src_]): bad.append(f'row {{r}} (id {{i_}}): {{k}} belongs to another halo')
         for k, src_ in dict(hdeltac='deltac_rank', hfenv='fenv_rank', hshear='shear_rank').items():
             if k in hd and not np.isclose(hd[k][r], srow[src_], rtol=1e-12, atol=0): bad.append(f'row {{r}} (id {{i_}}): {{k}} = {{hd[k][r]}} but that halo has {{srow[src_]}}')
+    if np.asarray(pd['phid']).dtype.kind not in 'iu': bad.append(f"particle host ids are staged as {{np.asarray(pd['phid']).dtype}}: 64-bit ids do not survive a float array")
+    srcp = set(int(x) for x in allp_ids)
     for p_, hid_ in enumerate(pd['phid']):
+        if int(hid_) not in srcp: bad.append(f'particle {{p_}} is staged with host id {{int(hid_)}}, which no particle file records')
         if hid_ in hd['hid'] and hd['hid'][pd['pinds'][p_]] != hid_: bad.append(f'particle {{p_}} host index points to id {{hd["hid"][pd["pinds"][p_]]}}, records {{hid_}}')
 print('case', case, 'ids', [int(x) for x in (hd['hid'] if 'hd' in dir() else [])])
 for b_ in bad[:10]: print('  ', b_)
@@ -279,7 +289,7 @@ def validate(tier):
     m = {'s0.id[0]': 9, 's0.id[1]': 4, 's1.id[0]': 7, 's1.id[1]': 1, 's0.p.halo_id[0]': 4, 's1.p.halo_id[0]': 7}
     case = dict(slabs=2, halos=2, particles=1, want_AB=True, want_shear=True, want_ranks=False, want_expvel=False, tracers=['LRG'], chunking=[1, -1])
     path = os.path.join(harness.VERIF, 'replays', ID, '_validate.py')
-    rep, detail = common.write_replay(path, REPLAY.format(m=m, i=case, HF=HF, PF=PF))
+    rep, detail = common.write_replay(path, REPLAY.format(m=m, i=case, HF=HF, PF=PF, bigids=False))
     if rep is not False:
         raise AssertionError('real staging misaligns rows on a concrete 2x2 catalogue: ' + str(detail)[-600:])
     return 1
@@ -291,7 +301,7 @@ def replay(e, path):
     if i.get('kind') == 'search':
         from checks import c10
         return c10.replay(e, path)
-    return common.write_replay(path, REPLAY.format(m=m, i=i, HF=HF, PF=PF))
+    return common.write_replay(path, REPLAY.format(m=m, i=i, HF=HF, PF=PF, bigids=str(e.get('key', '')).find('intfloat') >= 0))
 
 
 if __name__ == '__main__':
